@@ -19,6 +19,8 @@ import sys
 import types
 import warnings
 
+import z3
+
 import numpy as real_np
 
 from . import core
@@ -411,8 +413,30 @@ def load(symbolic=True):
     ns.pseg = pseg
     if symbolic:
         Segment.__hash__ = lambda self: 0
-        Segment.__repr__ = lambda self: "<Segment>"
-        Segment.__str__ = lambda self: "<Segment>"
+
+        def _tid(x):
+            if not isinstance(x, SymNum):
+                return repr(float(x))
+            e = z3.simplify(x.e)
+            return repr(float(e.as_fraction())) if z3.is_rational_value(e) else "t%d" % e.get_id()
+
+        def _seg_repr(self):
+            """ideal (lossless) rendering: two segments render the same iff they are equal by value.  Segments are compared,
+            with the comparisons the repository's own by-value equality makes (start, then end), against the segments
+            rendered so far on this path; this forks only where that equality is still undecided.  The lossy real
+            rendering (%g, six significant digits) is covered by a concrete cross-check in C17."""
+            key = (_tid(self.start), _tid(self.end))
+            if not (isinstance(self.start, SymNum) or isinstance(self.end, SymNum)):
+                return "<Segment(%s, %s)>" % key
+            classes = Ctx.cur.notes.setdefault("repr_classes", [])
+            for k2, rep, tok in classes:
+                if k2 == key or (bool(self.start == rep.start) and bool(self.end == rep.end)):
+                    return tok
+            tok = "<Segment(%s, %s)>" % key
+            classes.append((key, self, tok))
+            return tok
+        Segment.__repr__ = _seg_repr
+        Segment.__str__ = _seg_repr
     ns.co = ns.continuum
     ns.ds = ns.dissimilarity
     ns.al = ns.alignment
